@@ -80,6 +80,7 @@ type rGen struct {
 	nrOK     int
 	firstErr string
 	hlog     []string
+	bare     bool // no handler was ever installed: the package's own defaults, not even wrapped for logging
 	lastZ    bool
 	fuzzy    bool // a compressed message was read: buffer state no longer predicted, only full reads from here on
 }
@@ -561,19 +562,35 @@ func (g *rGen) setup() {
 	}
 	// default handlers are observed through the frames they write; application handlers log themselves.
 	// To log default-handler invocations too, wrap the default (obtained from the getter) without changing it.
-	if g.hp == "" {
+	// In a quarter of the all-default scenarios nothing is installed at all (or nil is, which the
+	// documentation defines as "the default"): handler invocations are then invisible and the
+	// model's H: events are dropped from the comparison; replies and delivered data are still judged.
+	if g.hp == "" && g.hq == "" && g.hc == "" && g.rng.Intn(4) == 0 {
+		g.bare = true
+		g.sc.quietH = true
+		g.sc.tag("bare-defaults")
+		if g.rng.Intn(2) == 0 {
+			g.c.SetPingHandler(nil)
+			g.c.SetPongHandler(nil)
+			g.c.SetCloseHandler(nil)
+		}
+	}
+	if g.bare {
+	} else if g.hp == "" {
 		d := g.c.PingHandler()
 		g.c.SetPingHandler(func(s string) error { g.log.add("H:ping:" + hx([]byte(s))); return d(s) })
 	} else {
 		g.c.SetPingHandler(mk(g.hp, "ping"))
 	}
-	if g.hq == "" {
+	if g.bare {
+	} else if g.hq == "" {
 		d := g.c.PongHandler()
 		g.c.SetPongHandler(func(s string) error { g.log.add("H:pong:" + hx([]byte(s))); return d(s) })
 	} else {
 		g.c.SetPongHandler(mk(g.hq, "pong"))
 	}
-	if g.hc == "" {
+	if g.bare {
+	} else if g.hc == "" {
 		d := g.c.CloseHandler()
 		g.c.SetCloseHandler(func(code int, s string) error {
 			g.log.add(fmt.Sprintf("H:close:%d:%s", code, hx([]byte(s))))
@@ -1077,6 +1094,14 @@ func readerOracle(g *rGen) {
 			need++
 		}
 	}
+	if g.bare {
+		// invisible handlers: take the calls the wire order prescribes up to the last complete message
+		k := need
+		if k > len(want) {
+			k = len(want)
+		}
+		g.hlog = append([]string(nil), want[:k]...)
+	}
 	if len(g.hlog) < need {
 		sc.violate("only %d handler calls although %d control frames precede the end of a message reported complete", len(g.hlog), need)
 	}
@@ -1113,7 +1138,23 @@ func readerOracle(g *rGen) {
 					closed = true
 				}
 			}
-			if !closed && strings.Join(pings, ",") != strings.Join(pongs, ",") {
+			if g.bare {
+				// the handler calls are invisible: the pongs must echo the pings of the stream in wire order
+				// (a prefix of them — how far the reader got — covering at least the complete messages)
+				var all []string
+				for _, e := range want {
+					if strings.HasPrefix(e, "H:ping:") {
+						all = append(all, strings.TrimPrefix(e, "H:ping:"))
+					}
+				}
+				okPrefix := len(pongs) <= len(all) && len(pongs) >= len(pings)
+				for i := 0; okPrefix && i < len(pongs); i++ {
+					okPrefix = pongs[i] == all[i]
+				}
+				if !closed && !okPrefix {
+					sc.violate("default ping handler (nothing installed): the stream's pings are %v, the pongs written are %v", all, pongs)
+				}
+			} else if !closed && strings.Join(pings, ",") != strings.Join(pongs, ",") {
 				sc.violate("default ping handler: pings %v answered by pongs %v", pings, pongs)
 			}
 		}
@@ -1121,16 +1162,23 @@ func readerOracle(g *rGen) {
 		if g.violAt >= 0 && g.firstErr != "" && g.frames[g.violAt].hdrEnd <= g.cut && g.reachedViolation() {
 			has1002 := false
 			anyClose := false
+			otherCode := -1
 			for _, f := range frames {
 				if f.op == 8 {
 					anyClose = true
 					if len(f.payload) >= 2 && int(f.payload[0])<<8|int(f.payload[1]) == 1002 {
 						has1002 = true
+					} else if len(f.payload) >= 2 {
+						otherCode = int(f.payload[0])<<8 | int(f.payload[1])
 					}
 				}
 			}
 			if !g.topBit && !has1002 && !anyClose {
 				sc.violate("framing violation (%s) was not answered with a 1002 close frame", g.viol)
+			}
+			if !g.topBit && !has1002 && anyClose && !g.localClosed {
+				// the only close frame this reader can have written is the answer to the violation
+				sc.violate("framing violation (%s) was answered with a close frame of status %d, not 1002", g.viol, otherCode)
 			}
 		}
 	}
@@ -1383,6 +1431,19 @@ func runFuzzScenario(seed int64) *scenario {
 		}
 		if firstErr != "" && firstErr != "readLimit" && okMsgs == before {
 			sc.violate("a data frame with a %s length was answered with %q instead of ErrReadLimit", k, firstErr)
+		}
+		if firstErr == "readLimit" && okMsgs == before {
+			// ... and the peer is told: a close frame with status 1009, whatever the sizes involved
+			wf, _, _ := rfcDecode(g.t.wire)
+			has1009 := false
+			for _, f := range wf {
+				if f.op == 8 && len(f.payload) >= 2 && int(f.payload[0])<<8|int(f.payload[1]) == 1009 {
+					has1009 = true
+				}
+			}
+			if !has1009 {
+				sc.violate("a data frame with a %s length was refused with ErrReadLimit but no close frame with status 1009 was sent", k)
+			}
 		}
 	}
 	if limit > 0 && firstErr != "" && limitIsFirstEvent(b, g.srv, limit) && firstErr != "readLimit" {
